@@ -5,14 +5,16 @@
 (* Deliver(c, 1..3) / PeerEof / Close / Dial with the client steps.                                           *)
 EXTENDS H1Client
 CONSTANTS MaxX,        \* exchanges per connection history
-          WithReqClose \* include exchanges whose REQUEST carried Connection: close
+          WithReqClose, \* include exchanges whose REQUEST carried Connection: close
+          CoreOnly     \* only the five core shapes: no body / body, kept; body + close; until-close; over the limit
 
 Shapes == {[headEnd |-> 2, end |-> 2 + b, closeAfter |-> ca, reqClose |-> rc, untilClose |-> uc, big |-> bg] :
               b \in {0, 3}, ca \in BOOLEAN, rc \in BOOLEAN, uc \in BOOLEAN, bg \in BOOLEAN}
 \* a read-until-close body ends the connection; a request that carried close makes the peer close; only bodies
 \* can be too large
 Sane == {s \in Shapes : (s.untilClose => s.closeAfter /\ s.end > s.headEnd) /\ (s.reqClose => s.closeAfter) /\ (s.big => s.end > s.headEnd)
-                     /\ (s.reqClose => WithReqClose)}
+                     /\ (s.reqClose => WithReqClose)
+                     /\ (CoreOnly => (s.end = s.headEnd => ~s.closeAfter) /\ (s.big => ~s.closeAfter))}
 
 RECURSIVE SeqsUpTo(_, _)
 SeqsUpTo(S, n) == IF n = 0 THEN {<< >>}
